@@ -632,7 +632,9 @@ DnsMessage::decodeNameWithLoopDetection(const std::uint8_t *data, std::size_t of
     offset += length + 1;
 
     totalLength += length + 1;
-    if (totalLength > constants::DNS_MAX_NAME_SIZE)
+    // totalLength counts the length octets and label bytes but not the terminating
+    // zero octet: a maximal legal name (255 octets on the wire) has totalLength 254.
+    if (totalLength > constants::DNS_MAX_NAME_SIZE + 1)
     {
       throw DnsParseException("Domain name too long: " + std::to_string(totalLength) + " (max " +
                               std::to_string(constants::DNS_MAX_NAME_SIZE) + ")");
